@@ -1,4 +1,5 @@
 import RocflModel.Lemmas.Invariant
+import RocflModel.Lemmas.RepoInvariant
 /-
   C09 — the staged view equals the last version plus the staged operations.
 
@@ -73,5 +74,20 @@ theorem C09_remove_absent (o : Obj) (p : LPath) (hl : o.inv.LenOk) :
       simp only [Bool.false_eq_true, if_false]
       rw [hset]
       exact ⟨AL.get_erase_self _ _, fun q hq => AL.get_erase_ne _ _ _ hq⟩
+
+/-- **every history**: whatever was staged, reset, committed or refused before, the staged version of
+    every object is a well-formed tree (unique paths, nothing both file and directory, no empty
+    path) on top of a consistent version numbering — the premise under which the step theorems
+    above describe the staged view -/
+theorem C09_reachable_staged_wellformed (spec : SpecV) (ops : List (Op × Str)) (id : Str) (o : Obj)
+    (h : AL.get (run spec ops).staged id = some o) :
+    StateOk o.inv.headVersion.state ∧ o.inv.LenOk :=
+  ⟨InvOk.head_ok (staged_get_ok (reachable_ok spec ops) h), (staged_get_ok (reachable_ok spec ops) h).1⟩
+
+/-- hence in every reachable staged view a file is never also a directory -/
+theorem C09_reachable_staged_file_is_not_dir (spec : SpecV) (ops : List (Op × Str)) (id : Str) (o : Obj)
+    (h : AL.get (run spec ops).staged id = some o) (p : LPath) (hf : o.inv.headVersion.isFile p = true) :
+    o.inv.headVersion.isDir p = false :=
+  file_not_dir _ (C09_reachable_staged_wellformed spec ops id o h).1 p hf
 
 end Rocfl.Theorems.C09
